@@ -25,8 +25,21 @@ PARTIAL = ['C03_end_to_end_partial / C03_doc_tree_core_partial / C03_doc_cores_p
            'every option set, and the paragraph-break and space joins at string level; environments, specials other than the '
            'paragraph break, \\item, single-token accent arguments are outside that grammar (tree level + '
            'correspondence only); C03_compositional_space_source_partial: the space join at string level, same grammar',
-           '\\frac, \\sqrt and \\item[..] (%-templates over macro arguments, the optional argument of \\item) are not '
-           'constructors of Render.core: covered by the correspondence and the Python renderer only',
+           'C03_end_to_end2_partial / C03_tree_level2 / C03_node_level2 (Proofs/Compose2Render.v, composition with '
+           'C02_parse_unparse2_partial): end to end over the EXTENDED document grammar (environments - transparent and '
+           'wrapping -, specials, $$..$$, optional / single-token arguments ...): for every ok_doc2 document whose meaning '
+           'tree_of2 is recognised by abstract2 (decidable; computes the core items), latex_to_text = render of those items. '
+           'abstract2 maps \\frac, \\sqrt[..]{..}, \\footnote and every other %-template macro into the UNCHANGED spec '
+           'language (KTransparent [literal characters as KSpecials, each %s / %(i)s as the transparent contents of its '
+           'argument]) and \\item[label] into KTransparent [KSpecials "\\n  "; KTransparent label]; partial: \\item[..] '
+           'only with keep_braced_groups off (with it the label keeps its brackets, which Render.core cannot express), a '
+           'template macro without argument nodes is not recognised, the extended grammar is not all of LaTeX; '
+           'C03_end_to_end2_doc_partial / C03_doc_tree_core2_partial (Proofs/Compose2RenderDoc.v): the same with the SYNTACTIC '
+           'side condition doc_cores2 (computed from the document alone, no positions: comments, paragraph breaks, groups, the '
+           'four kinds of formulas, transparent / wrapping environments, specials, symbols, formatting and accent macros with '
+           'one argument - also after comments, accents also with a one-character token -, \\item with or (keep_braced_groups '
+           'off) without label, %-template macros with group / optional / absent / one-character arguments); not core there: '
+           'verbatim constructs, control-sequence or specials tokens as arguments',
            'a formatting macro is core only with exactly one braced argument (\\textbf x with a bare token argument is not)']
 REFUTED = []
 CASE_TIMEOUT = 10.0
